@@ -1,6 +1,7 @@
 import Driver.Util
 import Driver.RingStream
 import Driver.WireStream
+import Driver.SchedStream
 /-
 hwdriver: reads
     stream <name>
@@ -20,6 +21,7 @@ def dispatch (stream : String) : Option (String → String → CaseOut) :=
   | "ring" => some ringCase
   | "wire" => some wireCase
   | "hostile" => some hostileCase
+  | "sched" => some schedCase
   | _ => none
 
 def bump (cov : List (String × Nat)) (t : String) : List (String × Nat) :=
